@@ -66,7 +66,7 @@ PROPS = {
     ),
     "C06": dict(
         title="Lifecycle gating and monotonicity",
-        lean=["LP.Props.C06gates", "LP.Props.C06stage", "LP.Props.C06run", "LP.Props.C10reach"],
+        lean=["LP.Props.C06gates", "LP.Props.C06stage", "LP.Props.C06run", "LP.Props.C10reach", "LP.Props.C06once"],
         profiles=[("timeline", ALL_VARIANTS), ("life", ALL_VARIANTS), ("deploy", ALL_VARIANTS),
                   ("chunks", ["nft"] + GUAR)],
         R={"st": [(ANY, STAGE_MSGS), ({"deploy"}, None)]},
